@@ -22,6 +22,13 @@ func c02Glob(pattern string) ([]string, error) {
 	if _, ok := fs.VerifFiles[pattern]; ok {
 		return []string{pattern}, nil
 	}
+	if pattern == "/f*" { // the glob of the one-command sessions: every file of the session
+		var all []string
+		for i := 0; i < len(fs.VerifFiles); i++ {
+			all = append(all, "/f"+string(rune('0'+i)))
+		}
+		return all, nil
+	}
 	return nil, nil
 }
 func c02Perm(u *user.User, filePath, permissionType string) bool { return true }
@@ -79,6 +86,11 @@ func VerifC02cSession(nfiles, nlines, cats int) {
 		want = append(want, ls)
 		commands = append(commands, "cat:plain=true:quiet=true:serverless=true "+path+" regex:noop ")
 	}
+	// the files may also be named by one glob in a single command (dcat "/f*")
+	if nfiles > 1 && verifrt.Choose("one-glob-command", 2) == 1 {
+		commands = []string{"cat:plain=true:quiet=true:serverless=true /f* regex:noop "}
+		verifrt.Reach("glob-command")
+	}
 	// the client may send the commands of the session with a gap between them
 	gap := []time.Duration{0, 300 * time.Millisecond}[verifrt.Choose("command-gap", 2)]
 	inner := handlers.NewClientHandler("local(serverless)")
@@ -135,7 +147,8 @@ func VerifC02cSession(nfiles, nlines, cats int) {
 		verifrt.Reach("later-command-lost")
 	} else if missing > 0 {
 		// known: once flush() has given up (10 x 10 ms) the close handshake can overtake queued lines
-		verifrt.Finding("C02-KF1", pace > 0 || stallAt >= 0)
+		verifrt.Assert(pace > 0 || stallAt >= 0, "selected lines of the session were not delivered although the consumer keeps up")
+		verifrt.Finding("C02-KF1", true)
 		verifrt.Reach("lines-lost")
 	}
 	if logged > 0 {
